@@ -169,6 +169,28 @@ def _templates(wt, m, n, seed):
     return _TPL[key]
 
 
+def sub_siglen(case):
+    """Length of the first cosigner's signature (DER + hash-type byte) for a window of output amounts (selection of
+    ceremonies with a rare signature size; nothing is judged here)."""
+    from bitcoinlib.wallets import Wallet
+    wt, m, n, seed = case['wt'], case['m'], case['n'], case['seed']
+    tpl, addr = _templates(wt, m, n, seed)
+    d = env.fresh_db_path('c10scan')
+    shutil.copyfile(tpl[0], d)
+    w = Wallet('w', db_uri=d, db_cache_uri=wh.cache_db())
+    out = []
+    try:
+        for amount in range(case['lo'], case['hi']):
+            with wh.ForcedRandom(None, 'uniform', 'identity'):
+                t = w.transaction_create([(wh.external_address(9)[0], amount)], fee=3000, min_confirms=0)
+            t.sign()
+            sigs = t.inputs[0].signatures
+            out.append([amount, len(sigs[0].as_der_encoded()) if sigs else 0])
+    finally:
+        wh.close(w, d)
+    return {'ret': out, 'n': len(out), 'out': 'scanned'}
+
+
 def sub_ceremony(case):
     from bitcoinlib.wallets import Wallet, WalletError
     from bitcoinlib.transactions import TransactionError
@@ -195,7 +217,7 @@ def sub_ceremony(case):
                     with wh.ForcedRandom(None, 'uniform', 'identity'):
                         if cfg.get('create') == 'no_fee_sniping':
                             wj.anti_fee_sniping = False
-                        t = wj.transaction_create([(wh.external_address(9)[0], 40000)], fee=3000, min_confirms=0,
+                        t = wj.transaction_create([(wh.external_address(9)[0], cfg.get('amount', 40000))], fee=3000, min_confirms=0,
                                                   **CREATE_OPTS[cfg.get('create', 'default')])
                     created = (t.locktime, t.version_int, [i.sequence for i in t.inputs])
                     t.sign()
@@ -282,7 +304,7 @@ def sub_ceremony(case):
             wh.close(w, d)
 
 
-SUBS = {'agree': sub_agree, 'ceremony': sub_ceremony}
+SUBS = {'siglen': sub_siglen, 'agree': sub_agree, 'ceremony': sub_ceremony}
 
 
 def run(ctx):
@@ -319,6 +341,24 @@ def run(ctx):
             if q and (wts.index(wt) + ['locktime', 'rbf', 'no_fee_sniping'].index(opt)) % 3:
                 continue        # quick: each option on one witness type, each witness type with one option
             cer.append(({'wt': wt, 'm': 2, 'n': 3, 'seed': seed, 'forms': forms, 'max_len': 3, 'create': opt}, 3))
+    # ceremonies whose first signature has a rare size (<= 70 bytes with the hash-type byte): the output amount is moved
+    # through a window and the library's own signature is measured to select the amount
+    W = 800 if q else 2000
+    scans = ctx.pmap('siglen', [{'wt': wt, 'm': 2, 'n': 3, 'seed': seed, 'lo': 40001 + j, 'hi': 40001 + j + 20}
+                                for wt in wts for j in range(0, W, 20)], chunk=1)
+    picked = []
+    for wi, wt in enumerate(wts):
+        amt = None
+        for r in scans[wi * (W // 20):(wi + 1) * (W // 20)]:
+            for a, ln in r:
+                if 0 < ln <= 70 and amt is None:
+                    amt = a
+        if amt is None:
+            ctx.cap('no short signature for %s within %d amounts' % (wt, W))
+            continue
+        picked.append([wt, amt])
+        cer.append(({'wt': wt, 'm': 2, 'n': 3, 'seed': seed, 'forms': forms, 'max_len': 3, 'amount': amt}, 3))
+    ctx.note('short_signature_ceremonies', picked)
     total = ctx.bfs_multi('ceremony', cer, max_states=3000 if q else 30000)
     ctx.note('bounds', {'agreement_cases': len(cases), 'm_of_n': mns, 'ceremony_configs': len(cer),
                         'ceremony_states': total, 'forms': forms})
